@@ -35,7 +35,9 @@ TEMPLATES = ["{a} + {b}", "{a} + [4]", "{a} + \"4]\"", "[*{a}, 4]", "[*{a}, *{b}
              "{a}.try.fmap{{|x| keep(x)}}.fmap{{|x| keep([x])}}.A", "keep({a}.try).or({b})", "keep(\"#{{keep({a})}}#{{keep({b})}}\")",
              "{a}(1)", "{a}({b})", "{a}(1, 2, k: 3)", "{a}.call({b}, {b})", "[{b}]@{{|x| {a}(x)}}", "{b}.{{|x| {a}(x)}}",
              "{a} == {b}", "{a} != {b}", "[{a}] == [{b}]", "{{k: {a}}} == {{k: {b}}}", "%{{1: {a}}} == %{{1: {b}}}", "[{a}, {b}].has?({b})", "{a} === {b}", "{a}.case(%{{{b}: 1}})",
-             "[{a}, {b}].uniq", "[{a}, {b}].index({b})", "[{b}, {a}].tally"]
+             "[{a}, {b}].uniq", "[{a}, {b}].index({b})", "[{b}, {a}].tally",
+             # a literal's own non-scalar pairs before a `**` operand: some of the operand's pairs are dropped as duplicates, the rest kept
+             "%{{[1]: 0, **{a}}}", "%{{[2]: 0, [9]: 1, **{a}}}", "%{{**{b}, [2]: 0, **{a}}}", "{{y: 0, **{a}}}", "[*{a}][1:]"]
 
 
 def hh(s):
